@@ -1041,6 +1041,9 @@ static void followup_writes(rm_t *H) {
   vh_count("followups", 1);
 }
 
+static double dbg_t0;
+#define DBG_T(what) do { if (getenv("RM_DEBUG")) fprintf(stderr, "[rm] case %d %-22s +%.3fs\n", H->caseidx, what, vh_now() - dbg_t0); dbg_t0 = vh_now(); } while (0)
+
 static void repair_part(rm_t *H) {
   disk_t pre, post;
   exp_t *P;
@@ -1052,6 +1055,7 @@ static void repair_part(rm_t *H) {
   int gate, parked;
 
   /* --- 3. metadata loss (+ optional loss of a data file) */
+  DBG_T("history+close");
   apply_metadata_loss(H);
   if (H->extra != X_NONE) H->extra = apply_extra_loss(H, H->extra);
   H->lost_data = H->extra != X_NONE;
@@ -1123,6 +1127,7 @@ static void repair_part(rm_t *H) {
               wal_nonempty, H->h.cfg.cmp_kind);
 
   /* --- 5. repair */
+  DBG_T("expectation");
   rc = ldb_repair(H->h.dir, &H->h.opt);
   vh_count("repairs", 1);
   if (rc != LDB_OK) {
@@ -1130,6 +1135,7 @@ static void repair_part(rm_t *H) {
     goto out;
   }
 
+  DBG_T("ldb_repair");
   /* what repair left: directory listing, lost/, table contents */
   H->npost = dir_list(H->h.dir, &H->post_names);
   disk_scan(H, H->h.dir, &post);
@@ -1187,6 +1193,7 @@ static void repair_part(rm_t *H) {
   free(P);
   disk_free(&post);
 
+  DBG_T("post-repair decode");
   /* open, with the background thread parked at its first table creation */
   c = H->h.cfg;
   if (vr_chance(&H->r, 500)) { cfg_mutate_reopen(&c, &H->r); dbh_set_cfg(&H->h, &c); }
@@ -1224,6 +1231,7 @@ static void repair_part(rm_t *H) {
   check_file_numbers(H, "after-repair-open");
   check_phase(H, "after-repair-compaction", -1);
 
+  DBG_T("open+2 phases");
   /* (iv) follow-up */
   followup_writes(H);
   do_flush(H);
@@ -1247,6 +1255,7 @@ static void repair_part(rm_t *H) {
   check_file_numbers(H, "after-reopen");
   dbh_close(&H->h);
 
+  DBG_T("followup+2 phases");
 out:
   gate_off();
   dbh_close(&H->h);
@@ -1285,13 +1294,16 @@ static void pre_close_sanity(rm_t *H) {
   }
 }
 
+static double dbg_kind_t[12]; static int dbg_kind_n[12];
 static void random_step(rm_t *H) {
   static const int w_put = 300, w_del = 70, w_batch = 50, w_flush = 28, w_crange = 40, w_cman = 5, w_call = 2,
                    w_reopen = 6, w_snap = 20, w_unsnap = 18;
   int total = w_put + w_del + w_batch + w_flush + w_crange + w_cman + w_call + w_reopen + w_snap + w_unsnap;
   int c = (int)vr_uniform(&H->r, (uint32_t)total);
   int row = pick_row(H);
-#define TAKE(x) (c < (x) ? 1 : (c -= (x), 0))
+#define TAKE(x) (kind++, c < (x) ? 1 : (c -= (x), 0))
+  int kind = -1;
+  double t0 = vh_now();
   if (TAKE(w_put)) do_put(H, row, pick_vlen(H));
   else if (TAKE(w_del)) do_del(H, row);
   else if (TAKE(w_batch)) do_batch(H);
@@ -1302,6 +1314,7 @@ static void random_step(rm_t *H) {
   else if (TAKE(w_reopen)) do_reopen(H);
   else if (TAKE(w_snap)) snap_take(H);
   else if (H->nsnaps > 0) snap_release_at(H, (int)vr_uniform(&H->r, (uint32_t)H->nsnaps));
+  dbg_kind_t[kind] += vh_now() - t0; dbg_kind_n[kind]++;
 #undef TAKE
 }
 
@@ -1316,6 +1329,7 @@ static void run_case(uint64_t seed, int caseidx, const char *base, const opts_t 
 
   H->seed = seed;
   H->caseidx = caseidx;
+  dbg_t0 = vh_now();
   vr_seed(&H->r, seed * 1000003ULL + (uint64_t)caseidx * 7919ULL + 0xC19C19ULL);
   cfg_random(&cfg, &H->r);
   nkeys = 30 + (int)vr_uniform(&H->r, 270);
@@ -1437,6 +1451,7 @@ static void run_case(uint64_t seed, int caseidx, const char *base, const opts_t 
               H->reopens, H->snaps_taken, H->end_wal ? "wal" : "flushed", H->pre_sig, variant_name[H->variant],
               extra_name[H->extra], live, multi, mis, H->f4_keys, H->other_viol, vh_now() - t0);
   }
+  if (getenv("RM_DEBUG")) { int q; for (q = 0; q < 10; q++) fprintf(stderr, "[rm] kind %d n=%d t=%.3f\n", q, dbg_kind_n[q], dbg_kind_t[q]); }
   if (getenv("RM_DEBUG")) fprintf(stderr, "[rm] case %d wall %.2fs steps %d big %d\n", caseidx, vh_now() - t0, H->steps, H->allow_big);
   diag_drop(H);
   dbh_destroy(&H->h);
